@@ -218,7 +218,15 @@ def rule_c(ctx):
   # lt consults the type order only when types differ and ranks differ
   g = C.cfg_of(f.node)
   tests = [A.unparse(k.ast) for k in g.nodes if k.kind == 'test']
-  ok = 'type(left) is not type(right)' in tests and 'tol != tor' in tests
+  # locals holding the two ranks: assigned from the type-order function
+  rank_locals = {nm for st in ast.walk(f.node) if isinstance(st, ast.Assign) and isinstance(st.value, ast.Call)
+                 and (A.call_name(st.value) or '').split('.')[-1] == to.node.name
+                 for nm in A.assigned_names(st.targets[0])}
+  rank_cmp = any(k.kind == 'test' and isinstance(k.ast, ast.Compare) and len(k.ast.ops) == 1
+                 and isinstance(k.ast.ops[0], (ast.NotEq, ast.Eq))
+                 and {A.unparse(k.ast.left), A.unparse(k.ast.comparators[0])} <= rank_locals
+                 and A.unparse(k.ast.left) != A.unparse(k.ast.comparators[0]) for k in g.nodes)
+  ok = 'type(left) is not type(right)' in tests and rank_cmp
   ctx.ob('C06.c', f.fq + '#type-order-use', ok,
          'values of different categories are ordered by category, same category by content', f.loc,
          'type-order dispatch changed')
@@ -256,8 +264,17 @@ def rule_d(ctx):
     ctx.ob('C06.d', m.fq, ok,
            f'{m.name} returns {delegate} exactly when use_symbolic_comparison is set, else the '
            f'inherited behaviour', m.loc, 'flag guard / delegation changed')
-  txt = A.unparse(nem.node, 1000)
-  ok = 'self.__eq__(other)' in txt and 'return not r' in txt
+  # every non-NotImplemented return is `not <the result of self.__eq__(other)>`
+  def is_eq_call(e):
+    return isinstance(e, ast.Call) and A.call_name(e) == 'self.__eq__' and len(e.args) == 1
+  eq_locals = {nm for st in ast.walk(nem.node) if isinstance(st, ast.Assign) and is_eq_call(st.value)
+               for nm in A.assigned_names(st.targets[0])}
+  def is_eq_result(e):
+    return is_eq_call(e) or (isinstance(e, ast.Name) and e.id in eq_locals)
+  rets = [r.value for r in ast.walk(nem.node) if isinstance(r, ast.Return) and r.value is not None]
+  negs = [r for r in rets if isinstance(r, ast.UnaryOp) and isinstance(r.op, ast.Not) and is_eq_result(r.operand)]
+  others = [r for r in rets if r not in negs and not is_eq_result(r) and A.unparse(r) != 'NotImplemented']
+  ok = bool(negs) and not others
   ctx.ob('C06.d', nem.fq, ok, '__ne__ negates __eq__ (NotImplemented passes through)', nem.loc,
          '__ne__ no longer derived from __eq__')
   for cls_fq in (S.LIST,):
@@ -289,11 +306,13 @@ def rule_e(ctx):
          'Dict.sym_hash no longer iterates sym_items()')
   # Object.sym_eq: same type required, attribute containers compared with eq
   f = idx.lookup_method(S.OBJECT, 'sym_eq')
-  t = A.unparse(f.node, 1000)
   type_cmp = any(isinstance(n, ast.Compare) and isinstance(n.ops[0], (ast.Is, ast.IsNot))
                  and {A.unparse(n.left), A.unparse(n.comparators[0])} == {'type(self)', 'type(other)'}
                  for n in ast.walk(f.node))
-  ok = type_cmp and 'base.eq(self._sym_attributes, other._sym_attributes)' in t
+  attr_eq = any((A.call_name(c) or '').split('.')[-1] == 'eq' and
+                {A.unparse(x) for x in c.args[:2]} == {'self._sym_attributes', 'other._sym_attributes'}
+                for c in A.calls_in(f.node))
+  ok = type_cmp and attr_eq
   ctx.ob('C06.e', f.fq + '#shape', ok,
          'objects are equal iff identical or of the very same class with equal attributes', f.loc,
          'sym_eq no longer requires the same class / compares attributes with eq')
